@@ -160,3 +160,101 @@ func c06IM0Any(c *Ctx) (n, skipped int64) {
 	})
 	return
 }
+
+// c06Repeated — several acceptances in a row on ONE CPU object, with the host (or the
+// program) rewriting the mode-2 table entry, the stack area and even replacing the memory
+// object in between: every acceptance is judged by the same closed-form rule, on what
+// memory holds NOW.
+func c06Repeated(c *Ctx) (n int64) {
+	r := mon.NewRng(uint64(c.Seed) ^ 0xC06E)
+	nseq := c.Pick(3000, 60000)
+	mems := [2]*mon.Mem{{}, {}}
+	mems[0].Fill(r.U64())
+	mems[1].Fill(r.U64())
+	for si := 0; si < nseq; si++ {
+		cpu := &z80.CPU{Memory: mems[0]}
+		cpu.States = RandStates(r)
+		ivec := uint8(r.Intn(128) * 2)
+		cpu.IR.Hi = r.U8()
+		var trail []string
+		for round := 0; round < 2+r.Intn(4); round++ {
+			mem := mems[r.Intn(2)]
+			cpu.Memory = mem // sometimes another object (bank switch / restored snapshot)
+			kind := r.Intn(4)
+			pre := cpu.States
+			pre.IFF1 = true
+			pre.SP = 0x8000 + uint16(r.Intn(0x1000))
+			pre.PC = 0x1000 + uint16(r.Intn(0x6000))
+			ta := uint16(pre.IR.Hi)<<8 | uint16(ivec)
+			if ta >= 0x7ff0 && ta < 0x9010 {
+				pre.SP = 0xc000 // keep the stack off the table
+			}
+			target := r.U16()
+			var it *z80.Interrupt
+			want := uint16(0)
+			switch kind {
+			case 0:
+				it, want = z80.NMIInterrupt(), 0x0066
+			case 1:
+				pre.IM = 1
+				it, want = z80.IM1Interrupt(), 0x0038
+			case 2:
+				pre.IM = 2
+				mem.Data[ta], mem.Data[ta+1] = uint8(target), uint8(target>>8) // the entry as it is NOW
+				it, want = z80.IM2Interrupt(ivec), target
+			default:
+				pre.IM = 0
+				p := uint8(r.Intn(8))
+				it, want = z80.IM0Interrupt(0xc7|p<<3), uint16(p)*8
+			}
+			cpu.States = pre
+			cpu.HALT = false
+			cpu.Interrupt = it
+			var pan interface{}
+			func() {
+				defer func() { pan = recover() }()
+				cpu.Step()
+			}()
+			n++
+			trail = append(trail, []string{"NMI", "mode 1", "mode 2", "mode 0 RST"}[kind])
+			bad := ""
+			switch {
+			case pan != nil:
+				bad = fmt.Sprintf("panic: %v", pan)
+			case cpu.Interrupt != nil:
+				bad = "request not accepted / not consumed"
+			case cpu.PC != want:
+				bad = fmt.Sprintf("handler address %04X, want %04X (the word stored in the table NOW / the fixed address)", cpu.PC, want)
+			case cpu.SP != pre.SP-2:
+				bad = "SP not lowered by 2"
+			case cpu.IFF1 || (kind != 0 && cpu.IFF2) || (kind == 0 && cpu.IFF2 != pre.IFF1):
+				bad = "IFF1/IFF2 after acceptance"
+			case kind != 3 && (mem.Data[pre.SP-1] != uint8(pre.PC>>8) || mem.Data[pre.SP-2] != uint8(pre.PC)):
+				bad = "return address not on the stack of the memory attached NOW"
+			case kind == 3:
+				// mode 0: the pushed value is PC or PC+1 (C07's known finding), in THIS memory
+				pushed := uint16(mem.Data[pre.SP-2]) | uint16(mem.Data[pre.SP-1])<<8
+				if pushed != pre.PC && pushed != pre.PC+1 {
+					bad = "return address not on the stack of the memory attached NOW"
+				}
+			}
+			if bad != "" {
+				c.R.Violation("C06/repeated-acceptance/"+trail[len(trail)-1]+"/"+bad[:min(len(bad), 40)], map[string]interface{}{
+					"what": bad, "acceptances_on_this_cpu_object": trail, "pre": DumpState(&pre, false), "post": DumpState(&cpu.States, cpu.HALT),
+					"table_entry": h16(ta), "word_in_table": h16(uint16(mem.Data[ta]) | uint16(mem.Data[ta+1])<<8)})
+				return
+			}
+			// the handler may or may not end with RETN/RETI before the next request: run a few
+			// instructions of whatever is there (random bytes) half of the time
+			if r.Bool() {
+				func() {
+					defer func() { recover() }()
+					for k := 0; k < r.Intn(4); k++ {
+						cpu.Step()
+					}
+				}()
+			}
+		}
+	}
+	return
+}
